@@ -191,6 +191,19 @@ pub fn envelope(args: &[&str]) -> Option<Vec<String>> {
     Some(vec![res, deres.to_string(), rt.to_string()])
 }
 
+/// `envjson <json>`: an envelope read from arbitrary JSON (what `FileTransport::read` and any caller of serde does)
+pub fn envjson(args: &[&str]) -> Option<Vec<String>> {
+    let js = unhex_str(args.first()?)?;
+    Some(vec![match serde_json::from_str::<Envelope>(&js) {
+        Ok(e) => format!(
+            "ok:{}:{}",
+            e.from().map(|a| hex(a.to_string().as_bytes())).unwrap_or("none".into()),
+            hex_list(&e.to().iter().map(|a| a.to_string().into_bytes()).collect::<Vec<_>>())
+        ),
+        Err(_) => "err".to_string(),
+    }])
+}
+
 /// `mailcmd <from|-> <to>` → the MAIL and RCPT command lines for these addresses
 pub fn mailcmd(args: &[&str]) -> Option<Vec<String>> {
     use lettre::transport::smtp::commands::{Mail, Rcpt};
